@@ -10,14 +10,15 @@ Everything the two readers provably read to the same term (after `mkNorm`):
 * `(f args…)` for the theory symbols `fragOps` with the arities `arityOK` (`=> xor = distinct / < <= > >=` and the
   bit-vector operators that pySMT builds with a binary constructor: exactly two arguments; `(- t)` only for a numeric
   constant `t`; `and or + * bvand bvor bvadd bvmul concat str.++`: any number), `((_ extract i j) t)`,
-  `((_ zero_extend k) t)`, `((_ sign_extend k) t)`, `((_ repeat k) t)`, `((as const σ) t)`, `(_ bvN w)` with `N < 2^w`,
+  `((_ zero_extend k) t)`, `((_ sign_extend k) t)`, `((_ repeat k) t)`, `((_ rotate_left k) t)`, `((_ rotate_right k) t)`
+  (for the rotations the agreement theorem has the side condition `RotOK`, `Proofs/C08AgreeRot.lean`: `k` is at most the
+  width of `t` — pySMT refuses larger rotations, the standard does not), `((as const σ) t)`, `(_ bvN w)` with `N < 2^w`,
   and applications of declared functions;
 * `(let ((x t)…) body)` (simultaneous), `(forall|exists ((x σ)…) body)`: bound names are not spelled like literals (F16b)
   and not like declared sorts (the parser keeps both in one cache); binder sorts are plain sorts (`FragSort`); every
   binder `(x σ)` agrees with the name ↦ symbol assignment `ρ` of the formula manager (one name, one sort).
 
-Not in the fragment (hence not covered by the agreement theorem): `(_ rotate_left k)`, `(_ rotate_right k)` (pySMT refuses
-a rotation by more than the width, the standard does not), `bvsmod` (own encoding), n-ary `=> = distinct - / < <= > >=
+Not in the fragment (hence not covered by the agreement theorem): `bvsmod` (own encoding), n-ary `=> = distinct - / < <= > >=
 bvxor`, annotations `(! t …)`, `(as x σ)`, parametric sorts, `div mod abs`, `str.to_int`/`str.from_int` (F11 spellings),
 applications of `define-fun`s (F17).
 -/
@@ -58,7 +59,8 @@ def bvLitOK : List Sexp → Bool
 def fragHead : List Sexp → Bool
   | [.atom u, .atom f, .atom _, .atom _] => u == "_" && f == "extract"
   | [.atom u, .atom f, x] =>
-    (u == "_" && (f == "zero_extend" || f == "sign_extend" || f == "repeat") && (match x with | .atom _ => true | _ => false))
+    (u == "_" && (f == "zero_extend" || f == "sign_extend" || f == "repeat" || f == "rotate_left" || f == "rotate_right")
+        && (match x with | .atom _ => true | _ => false))
       || (u == "as" && symName? f == some "const" && FragSort x)
   | _ => false
 
